@@ -292,6 +292,44 @@ func dumpTable(e *task.Executor) string {
 	if e.Taskfile.Vars != nil {
 		fmt.Fprintf(&b, "vars:%v\n", e.Taskfile.Vars.ToCacheMap())
 	}
+	// every compiled task: rendered command lines, deps and the variables the task sees
+	for name := range e.Taskfile.Tasks.Keys(nil) {
+		func() {
+			defer func() { recover() }()
+			ct, err := e.CompiledTask(&task.Call{Task: name})
+			if err != nil || ct == nil {
+				fmt.Fprintf(&b, "compiled %s: error %v\n", name, err)
+				return
+			}
+			fmt.Fprintf(&b, "compiled %s dir=%s", name, ct.Dir)
+			for _, c := range ct.Cmds {
+				fmt.Fprintf(&b, " [%s|%s]", c.Task, c.Cmd)
+			}
+			for _, d := range ct.Deps {
+				fmt.Fprintf(&b, " dep:%s", d.Task)
+			}
+			if ct.Vars != nil {
+				m := ct.Vars.ToCacheMap()
+				keys := make([]string, 0, len(m))
+				for k := range m {
+					if k == "TASK_EXE" || k == "TASK_VERSION" {
+						continue
+					}
+					keys = append(keys, k)
+				}
+				sort.Strings(keys)
+				for _, k := range keys {
+					if k == strings.ToUpper(k) && len(k) > 3 && !strings.HasPrefix(k, "IV") && !strings.HasPrefix(k, "CV") && !strings.HasPrefix(k, "LV") {
+						if _, env := os.LookupEnv(k); env {
+							continue // inherited process environment
+						}
+					}
+					fmt.Fprintf(&b, " %s=%v", k, m[k])
+				}
+			}
+			b.WriteString("\n")
+		}()
+	}
 	return b.String()
 }
 
@@ -555,7 +593,17 @@ func CheckMerge(prop, tier string) int {
 	}
 	loads := 1
 	if prop == "C09" {
-		loads = 8
+		loads = 6
+		if tier != "thorough" {
+			// determinism is observed on every second tree in the quick tier (C08 covers all of them structurally)
+			var sel []mCase
+			for i, c := range cases {
+				if (i+int(rep.Seed()))%2 == 0 {
+					sel = append(sel, c)
+				}
+			}
+			cases = sel
+		}
 		if tier == "thorough" {
 			loads = 60
 		}
